@@ -124,6 +124,26 @@ Fixpoint mapM_st {S A B} (f : S -> A -> option (S * B)) (s : S) (l : list A) : o
               end
   end.
 
+(* outcome of a construction (possibly of a whole subtree): built; a user __post_init__ raised AFTER the base class's
+   __post_init__ had given the new node its id and registered it (state = everything built so far, the half-built
+   node included); a fuelled loop ran out *)
+Inductive dres (A : Type) := DOk (s : st) (x : A) | DLate (s : st) | DFuel.
+Arguments DOk {A} s x. Arguments DLate {A} s. Arguments DFuel {A}.
+
+Fixpoint mapM_d {A B} (f : st -> A -> dres B) (s : st) (l : list A) : dres (list B) :=
+  match l with
+  | [] => DOk s []
+  | x :: r => match f s x with
+              | DFuel => DFuel
+              | DLate s1 => DLate s1
+              | DOk s1 y => match mapM_d f s1 r with
+                            | DFuel => DFuel
+                            | DLate s2 => DLate s2
+                            | DOk s2 ys => DOk s2 (y :: ys)
+                            end
+              end
+  end.
+
 Definition shape_okr (k : ckind) (sh : kshape) (n : nat) : bool :=
   match k, sh, n with
   | KOpt true, ShNone, 0 => true
@@ -138,6 +158,10 @@ Definition all_fields (ct : ctable) (c : pystr) : list fdecl := f_id :: f_cid ::
 Section Machine.
   Variable H : pystr -> pystr.
   Variable ct : ctable.
+  (* a user subclass may validate in its own __post_init__ AFTER super().__post_init__() (which has computed the ids and
+     registered the node): [late s a] = that validation raises (ValueError) for the node at address a, just built and
+     registered in state s.  Arbitrary: it may read the node, its children, its id, the registry. *)
+  Variable late : st -> nat -> bool.
   Variable fixed : bool.      (* true: detach_self / detach / replace after the D4 repair (the code in /repo);
                                  false: the code before it (pop by id, whoever holds it) *)
 
@@ -161,6 +185,13 @@ Section Machine.
                reg := (i, a) :: reg s; vars := vars s; det := det s; gone := gone s |}, a)
     end.
 
+  (* the whole constructor call: ASTNode.__post_init__ (alloc), then the subclass's own validation *)
+  Definition construct (s : st) (c : pystr) (o : origin) (ps : list (pystr * pval)) (ks : kidsr) : dres nat :=
+    match alloc s c o ps ks with
+    | None => DFuel
+    | Some (s', a) => if late s' a then DLate s' else DOk s' a
+    end.
+
   (* detach_self *)
   Definition detach_self (s : st) (a : nat) : st * bool :=
     match cell_at s a with
@@ -180,19 +211,21 @@ Section Machine.
     fold_left (fun s x => fst (detach_self s x)) (tree_of s a) s.
 
   (* duplicate: children first (iter_child_fields order, left to right), then dataclasses.replace of self with the copies *)
-  Fixpoint dup (fuel : nat) (s : st) (a : nat) : option (st * nat) :=
+  Fixpoint dup (fuel : nat) (s : st) (a : nat) : dres nat :=
     match fuel with
-    | 0 => None
+    | 0 => DFuel
     | S f =>
       match cell_at s a with
-      | None => None
+      | None => DFuel
       | Some c =>
-        match mapM_st (fun s k => match mapM_st (dup f) s (snd (snd k)) with
-                                  | Some (s', l) => Some (s', (fst k, (fst (snd k), l)))
-                                  | None => None
-                                  end) s (k_kids c) with
-        | None => None
-        | Some (s1, ks') => alloc s1 (k_cls c) (k_org c) (k_props c) ks'
+        match mapM_d (fun s k => match mapM_d (dup f) s (snd (snd k)) with
+                                 | DOk s' l => DOk s' (fst k, (fst (snd k), l))
+                                 | DLate s' => DLate s'
+                                 | DFuel => DFuel
+                                 end) s (k_kids c) with
+        | DFuel => DFuel
+        | DLate s1 => DLate s1            (* a copy further down failed: the exception propagates *)
+        | DOk s1 ks' => construct s1 (k_cls c) (k_org c) (k_props c) ks'
         end
       end
     end.
@@ -279,9 +312,10 @@ Section Machine.
     | Some c =>
       match dc_check (k_cls c) (map fst ch) with
       | Some e => (s, Raised e)
-      | None => match alloc s (k_cls c) (new_origin c ch) (new_props c ch) (new_kids c ch) with
-                | Some (s', a') => (s', OkNode a')
-                | None => (s, FuelOut)
+      | None => match construct s (k_cls c) (new_origin c ch) (new_props c ch) (new_kids c ch) with
+                | DOk s' a' => (s', OkNode a')
+                | DLate s' => (s', Raised EValue)   (* the new node exists and is registered when the exception leaves *)
+                | DFuel => (s, FuelOut)
                 end
       end
     end.
@@ -324,9 +358,10 @@ Section Machine.
       match new_args s c ps ks with
       | RBad => (s, Bad)
       | RSkip => (s, Skipped)
-      | ROk ks' => match alloc s c og ps ks' with
-                   | Some (s', a) => bind dst (s', OkNode a)
-                   | None => (s, FuelOut)
+      | ROk ks' => match construct s c og ps ks' with
+                   | DOk s' a => bind dst (s', OkNode a)
+                   | DLate s' => (s', Raised EValue)
+                   | DFuel => (s, FuelOut)
                    end
       end
     | Dup dst src =>
@@ -334,8 +369,9 @@ Section Machine.
       match resolve s src with
       | None => (s, Skipped)
       | Some a => match dup (length (heap s)) s a with
-                  | Some (s', a') => bind dst (s', OkNode a')
-                  | None => (s, FuelOut)
+                  | DOk s' a' => bind dst (s', OkNode a')
+                  | DLate s' => (s', Raised EValue)
+                  | DFuel => (s, FuelOut)
                   end
       end
     | DcReplace dst src ch =>
@@ -425,3 +461,6 @@ Section Machine.
     end.
 End Machine.
 Arguments RSkip {A}. Arguments RBad {A}. Arguments ROk {A} x.
+
+(* no class validates after the base __post_init__ *)
+Definition no_late : st -> nat -> bool := fun _ _ => false.
